@@ -144,32 +144,33 @@ pub fn char_gt_eq(vm: &mut Vm) -> Result<VCell, Error> {
     char_comp(vm, "char>=?", |x, y| x >= y)
 }
 
+/// Fold the case of a character the way char-foldcase does.
+fn fold_case(c: &char) -> char {
+    let mut lower = c.to_lowercase();
+    match (lower.next(), lower.next()) {
+        (Some(folded), None) => folded,
+        _ => *c,
+    }
+}
+
 pub fn char_ci_eq(vm: &mut Vm) -> Result<VCell, Error> {
-    char_comp(vm, "char-ci=?", |x, y| x.eq_ignore_ascii_case(y))
+    char_comp(vm, "char-ci=?", |x, y| fold_case(x) == fold_case(y))
 }
 
 pub fn char_ci_lt(vm: &mut Vm) -> Result<VCell, Error> {
-    char_comp(vm, "char-ci<?", |x, y| {
-        x.to_ascii_lowercase() < y.to_ascii_lowercase()
-    })
+    char_comp(vm, "char-ci<?", |x, y| fold_case(x) < fold_case(y))
 }
 
 pub fn char_ci_lt_eq(vm: &mut Vm) -> Result<VCell, Error> {
-    char_comp(vm, "char-ci<=?", |x, y| {
-        x.to_ascii_lowercase() <= y.to_ascii_lowercase()
-    })
+    char_comp(vm, "char-ci<=?", |x, y| fold_case(x) <= fold_case(y))
 }
 
 pub fn char_ci_gt(vm: &mut Vm) -> Result<VCell, Error> {
-    char_comp(vm, "char-ci>?", |x, y| {
-        x.to_ascii_lowercase() > y.to_ascii_lowercase()
-    })
+    char_comp(vm, "char-ci>?", |x, y| fold_case(x) > fold_case(y))
 }
 
 pub fn char_ci_gt_eq(vm: &mut Vm) -> Result<VCell, Error> {
-    char_comp(vm, "char-ci>=?", |x, y| {
-        x.to_ascii_lowercase() >= y.to_ascii_lowercase()
-    })
+    char_comp(vm, "char-ci>=?", |x, y| fold_case(x) >= fold_case(y))
 }
 
 fn char_comp(vm: &mut Vm, name: &str, comp: impl Fn(&char, &char) -> bool) -> Result<VCell, Error> {
